@@ -613,6 +613,26 @@ impl<'a> TypedReprRef<'a> {
     }
 }
 
+/// Read-only verification hook, compiled only with `--cfg dashu_verif`.
+#[cfg(dashu_verif)]
+impl Repr {
+    /// Raw storage of the value as `(signed capacity field, stored length, inline?, stored words)`.
+    /// For inline values both inline words are returned.
+    #[doc(hidden)]
+    pub fn __verif_raw(&self) -> (isize, usize, bool, alloc::vec::Vec<Word>) {
+        let cap = self.capacity.get();
+        // SAFETY: the same discrimination on the capacity as in `Repr::len` / `Repr::as_slice`
+        unsafe {
+            if cap.unsigned_abs() <= 2 {
+                (cap, self.len(), true, self.data.inline.to_vec())
+            } else {
+                let (ptr, len) = self.data.heap;
+                (cap, len, false, slice::from_raw_parts(ptr, len).to_vec())
+            }
+        }
+    }
+}
+
 #[cfg(test)]
 mod tests {
     use super::*;
